@@ -90,9 +90,56 @@ pub fn ev(out: &mut dyn std::io::Write, size: usize, key: &[u8], t0: u64, t1: u6
         .emit(out);
 }
 
+/// several blocks through ONE `encrypt_blocks` / `decrypt_blocks` call: block i must come out as if it were alone
+fn ev_blocks(out: &mut dyn std::io::Write, size: usize, key: &[u8], t0: u64, t1: u64, xs: &[Vec<u8>], tag: &str, cfg: &str) {
+    macro_rules! go {
+        ($T:ty) => {{
+            let c = <$T>::with_tweak(GenericArray::from_slice(key), t0, t1);
+            let mut e: Vec<GenericArray<u8, <$T as cipher::BlockCipher>::BlockSize>> = xs.iter().map(|x| GenericArray::clone_from_slice(x)).collect();
+            let mut d = e.clone();
+            c.encrypt_blocks(&mut e);
+            c.decrypt_blocks(&mut d);
+            (e.iter().flat_map(|b| b.to_vec()).collect::<Vec<u8>>(), d.iter().flat_map(|b| b.to_vec()).collect::<Vec<u8>>())
+        }};
+    }
+    let r = guarded(|| match size {
+        32 => go!(Threefish256),
+        64 => go!(Threefish512),
+        _ => go!(Threefish1024),
+    });
+    let (res, (ys, zs)) = match r {
+        Ok(v) => ("ok".to_string(), v),
+        Err(p) => (format!("panic:{}", sanitize(&p)), (vec![], vec![])),
+    };
+    let flat: Vec<u8> = xs.iter().flat_map(|b| b.clone()).collect();
+    Ev::new(0, "tfb").i("size", size as i64).s("tag", tag).s("cfg", cfg).bytes("key", key).limbs("t0", t0 as u128, 4).limbs("t1", t1 as u128, 4)
+        .bytes("xs", &flat).bytes("ys", &ys).bytes("zs", &zs).s("res", &res).emit(out);
+}
+
 pub fn drive_tf(out: &mut dyn std::io::Write, seed: u64, thorough: bool, cfg: &str) {
     let mut rng = Rng::new(seed ^ 0x7f15);
     for &size in [32usize, 64, 128].iter() {
+        // consecutive blocks of one call that share a prefix of every word-aligned length with their predecessor, are
+        // identical to it, or repeat an earlier block (an implementation may carry state from one block to the next)
+        for rep in 0..(if thorough { 4 } else { 1 }) {
+            let key = rng.bytes(size);
+            let mut xs: Vec<Vec<u8>> = vec![rng.bytes(size)];
+            let mut cuts: Vec<usize> = (1..size / 8).map(|w| 8 * w).collect();
+            cuts.push(size - 1);
+            cuts.push(1);
+            for (ci, &cut) in cuts.iter().enumerate() {
+                let mut b = xs[xs.len() - 1].clone();
+                b[cut] ^= 0x40 >> (ci % 7); // shares exactly bytes 0..cut with its predecessor
+                xs.push(b);
+                if ci % 3 == rep % 3 {
+                    xs.push(xs[xs.len() - 1].clone()); // identical to its predecessor
+                }
+            }
+            xs.push(xs[0].clone());
+            xs.push(vec![0u8; size]);
+            xs.push(vec![0u8; size]);
+            ev_blocks(out, size, &key, rng.next(), rng.next(), &xs, "blocks", cfg);
+        }
         // published vectors of the repository's tests
         ev(out, size, &vec![0u8; size], 0, 0, true, &vec![0u8; size], "kat0", cfg);
         let kinc: Vec<u8> = (0..size).map(|i| (16 + i) as u8).collect();
